@@ -339,3 +339,7 @@ def run(ctx):
                         strip_cast(l.get("l")).get("k") == "p" and strip_cast(l.get("r")).get("n") == "_slot_bits":
                     ok = True
         ctx.ob("C01.R6c", L.short(fn), ok, fn.loc, "push version must be (index >> slot_bits) << 1 (round number, even)")
+
+
+SWEEP = ["concurrent/test_bounded_queue.cpp", "concurrent/test_bounded_queue_press_mpmc.cpp", "concurrent/test_execution_queue.cpp",
+         "test_executor.cpp", "logging/test_async_file_appender.cpp"]
